@@ -423,7 +423,22 @@ func (c *Ctx) Run(tier string) {
 		c.Check(&Case{W1: 0, W2: 9, Size: 13, Procs: 300, Cycles: 66000, Len: 4, Fixed: 6, Rounds: 2, Note: "-c 66000 -p 300"})
 		c.Check(&Case{W1: 2, W2: 9, Size: 100003, Procs: 70000, Cycles: 150000, Len: 4, Fixed: 50000, Rounds: 1, Note: "-s 100003 -p 70000 -c 150000"})
 	}
-	rep.Bound += "; one-warrior runs; -c 70000, -c 66000 -p 300, and -s 100003 -p 70000 -c 150000 (values beyond 16 bits)"
+	// values between the grid's boundaries: mid-sized and power-of-two cores, -r 7 and 10, -c 12345, -l 100
+	if c.Sh.I == 1%c.Sh.N {
+		for _, k := range []*Case{
+			{W1: 0, W2: 0, Size: 256, Procs: 64, Cycles: 12345, Len: 4, Fixed: 128, Rounds: 10},
+			{W1: 2, W2: 9, Size: 4096, Procs: 64, Cycles: 12345, Len: 4, Fixed: 2048, Rounds: 10},
+			{W1: 9, W2: 2, Size: 65536, Procs: 1000, Cycles: 12345, Len: 4, Fixed: 65536 - 5, Rounds: 7},
+			{W1: 3, W2: 4, Size: 55440, Procs: 10000, Cycles: 500, Len: 4, Fixed: 27720, Rounds: 10},
+			{W1: 8, W2: 9, Size: 8000, Procs: 8000, Cycles: 20000, Len: 100, Fixed: 100, Rounds: 3},
+			{W1: 9, W2: 8, Size: 8000, Procs: 8000, Cycles: 20000, Len: 100, Fixed: 7900, Rounds: 3, Legacy: true},
+			{W1: 4, W2: 3, Size: 800, Procs: 63, Cycles: 999, Len: 20, Fixed: 401, Rounds: 5},
+		} {
+			k.Note = "values between the grid's boundaries"
+			c.Check(k)
+		}
+	}
+	rep.Bound += "; one-warrior runs; -c 70000, -c 66000 -p 300, and -s 100003 -p 70000 -c 150000 (values beyond 16 bits); seven runs with values between the grid's boundaries (-s 256 / 800 / 4096 / 8000 / 55440 / 65536, -p 63 / 64 / 1000 / 8000 / 10000, -c 500 / 999 / 12345 / 20000, -l 20 / 100, -r 3 / 5 / 7 / 10)"
 	// presets
 	names := []string{"88", "icws", "nop94", "noptiny", "nop256", "nopnano"}
 	// imp vs imp runs to the preset's cycle limit (a tie); the ring fills the preset's process limit
@@ -482,6 +497,32 @@ func (c *Ctx) Run(tier string) {
 				}
 			}
 		}
+		// ten rounds under four fixed answer patterns (all first, all last, ascending, alternating)
+		if c.Sh.I == 2%c.Sh.N {
+			for _, gm := range []geo{{12, 2}, {10, 2}} {
+				n := (gm.s - gm.l - 1) - 2*gm.l + 1
+				for _, pr := range [][2]int{{3, 9}, {9, 4}, {2, 9}} {
+					for pat := 0; pat < 4; pat++ {
+						seq := make([]int, 10)
+						for i := range seq {
+							switch pat {
+							case 0:
+								seq[i] = 0
+							case 1:
+								seq[i] = n - 1
+							case 2:
+								seq[i] = i % n
+							default:
+								seq[i] = (i % 2) * (n - 1)
+							}
+						}
+						c.Check(&Case{W1: pr[0], W2: pr[1], Size: gm.s, Procs: 2, Cycles: 20, Len: gm.l, Rounds: 10, Rand: seq, Note: "random placement, ten rounds, forced answers"})
+						rep.Count("c17:forced-random-sequences")
+					}
+				}
+			}
+		}
+		rep.Bound += "; ten rounds of random placement under four forced answer patterns"
 		rep.Bound += fmt.Sprintf("; random placement: (-s,-l) in {(4,1),(7,2),(7,1),(10,1),(10,2),(12,2)}, 5 pairs each (for -l 2 pairs whose outcome depends on the placement), rounds 1..%d with every answer sequence of the random source forced through a build overlay", maxR)
 	}
 	rep.Sample("gmars -s 13 -p 8 -c 40 -l 4 -8 -F 9 dwarf.red clear.red")
